@@ -202,6 +202,21 @@ CHECKS = {
         technique="TLA+ syntax specs as independent serialisers + TLC enumeration of value vectors, behaviour replay into real parsers",
         design_ref="DESIGN.md section 5 C15",
     ),
+    "C17": dict(
+        level="model_checking",
+        text=("SeiSyntax.tla transcribes sei_rbsp (ff-run type/size coding, trailing bits, emulation prevention via Bits.tla) and the "
+              "typed payloads time_code (136), AVC pic_timing (1), 137 and 144; TLC checks that the reference parser inverts the "
+              "serialiser for every message list, enumerates lists (types/sizes >= 255, payloads needing emulation prevention) and all "
+              "clock-timestamp flag nestings / time-offset lengths, and each is written and parsed by the real sei package: extraction "
+              "returns the (type, payload) list, Decode(Payload(m)) = m, Size = serialised length = the syntax's length, pass-through "
+              "messages keep their payload; a message that came out of a decoder serialises to the bytes it was decoded from and like a "
+              "fresh message after a field is changed; every list is also parsed as a whole SEI NAL unit by avc.ParseSEINalu and "
+              "hevc.ParseSEINalu and compared message by message."),
+        note=("Trusted: TLC, Go replayer. Field values inside clock timestamps are fixed per position; CEA-608 and HEVC pic_timing are "
+              "covered as pass-through only."),
+        technique="TLA+ syntax spec + TLC exhaustive enumeration, behaviour replay into real code",
+        design_ref="DESIGN.md section 5 C17",
+    ),
     "C16": dict(
         level="exploration",
         text=("Robust.tla states the totality invariant (every entry point returns a value or an error - no panic, no fatal crash - "
